@@ -804,10 +804,22 @@ def read_cache_entry(
     else:
         # Versions < 4: regular name reading
         name = f.read(flags & FLAG_NAMEMASK)
+        name_end = f.tell()
+        if flags & FLAG_NAMEMASK == FLAG_NAMEMASK:
+            # The length field is saturated: the name is at least 0xFFF bytes
+            # long and is terminated by the first NUL of the padding.
+            while True:
+                char = f.read(1)
+                if not char:
+                    raise ValueError("Unexpected end of file while reading long path")
+                if char == b"\0":
+                    break
+                name += char
+                name_end += 1
 
     # Padding:
     if version < 4:
-        real_size = (f.tell() - beginoffset + 8) & ~7
+        real_size = (name_end - beginoffset + 8) & ~7
         f.read((beginoffset + real_size) - f.tell())
 
     return SerializedIndexEntry(
@@ -846,7 +858,9 @@ def write_cache_entry(
         # Version 4: use compression but set name_len to actual filename length
         # This matches how C Git implements index v4 flags
         compressed_path = _compress_path(entry.name, previous_path)
-    flags = len(entry.name) | (entry.flags & ~FLAG_NAMEMASK)
+    # Names that do not fit the 12-bit length field are stored with the field
+    # saturated (and found through their NUL terminator when reading).
+    flags = min(len(entry.name), FLAG_NAMEMASK) | (entry.flags & ~FLAG_NAMEMASK)
 
     if entry.extended_flags:
         flags |= FLAG_EXTENDED
